@@ -290,6 +290,9 @@ func (e *Engine) runPath(fn *ssa.Function, item WorkItem) {
 		switch p := r.(type) {
 		case nil:
 			ex.stats.PathsDone++
+			if len(ex.stats.Samples) < 3 && ex.concrete == nil {
+				ex.stats.Samples = append(ex.stats.Samples, Sample{Model: ex.modelSnapshot(), Decisions: len(ex.path), Outcome: "done"})
+			}
 		case pathEnd:
 			if p.why == "unknown" {
 				return
